@@ -68,21 +68,42 @@ Definition agree (c : case) : bool :=
   all_match s 0 (c_obs c) &&
   forallb (fun d => dump_eqb (model_dump (s_store s) (fst d)) (snd d)) (c_dumps c).
 
-(** model-independent oracle *)
-Definition same_values (l : kvs) : bool :=
-  match l with
-  | [] => true
-  | (_, v) :: l' => forallb (fun e => obytes_eqb (snd e) v) l'
-  end.
+(** model-independent oracles, from the observations and the final version
+    lists of the real store only:
+    - snapshot: every value a transaction read is the newest version at or
+      below its read timestamp in the final store (no partial view, no late
+      commit, repeatable reads);
+    - no lost update: a committed transaction (conflict detection on) read no
+      key that has a version strictly between its read timestamp and its own
+      commit version. *)
+Fixpoint dump_of (d : list (bytes * list (N * option bytes))) (k : bytes) : list (N * option bytes) :=
+  match d with [] => [] | (k', l) :: d' => if bytes_eqb k' k then l else dump_of d' k end.
 
-Definition dumps_equal (d : list (bytes * list (N * option bytes))) : bool :=
-  match d with
-  | [] => true
-  | (_, x) :: d' => forallb (fun e => dump_eqb (snd e) x) d'
+Fixpoint snap (l : list (N * option bytes)) (r : N) : option bytes :=      (* newest first *)
+  match l with [] => None | (v, x) :: l' => if v <=? r then x else snap l' r end.
+
+Definition snapshot_ok (c : case) (o : tobs) : bool :=
+  forallb (fun kv => obytes_eqb (snd kv) (snap (dump_of (c_dumps c) (fst kv)) (ob_rts o))) (ob_reads o).
+
+Fixpoint version_of (l : list (N * option bytes)) (tag : option bytes) : option N :=
+  match l with [] => None | (v, x) :: l' => if obytes_eqb x tag then Some v else version_of l' tag end.
+
+Definition no_lost_update (c : case) (p : tprog) (o : tobs) : bool :=
+  match ob_res o, p_writes p with
+  | OOkc, (wk, tag) :: _ =>
+      match version_of (dump_of (c_dumps c) wk) tag with
+      | Some cts =>
+          negb (c_detect c) ||
+          forallb (fun kv => forallb (fun e => negb ((ob_rts o <? fst e) && (fst e <? cts)))
+                                     (dump_of (c_dumps c) (fst kv))) (ob_reads o)
+      | None => false                       (* committed, yet its write is not in the store *)
+      end
+  | _, _ => true
   end.
 
 Definition spec_ok (c : case) : bool :=
-  forallb (fun o => same_values (ob_reads o)) (c_obs c) && dumps_equal (c_dumps c).
+  forallb (snapshot_ok c) (c_obs c) &&
+  forallb (fun po => no_lost_update c (fst po) (snd po)) (combine (c_progs c) (c_obs c)).
 
 Definition check (c : case) : verdict := mk_verdict (negb (agree c)) (negb (spec_ok c)) 0.
 
